@@ -131,6 +131,13 @@ class ScheduleMonitor(O.Monitor):
                 if nd.c not in allowed:
                     rep("servers-on-duty-follow-the-timetable", {"node": nid, "c": nd.c, "timetable": sorted(allowed), "now": O._num(t)})
                 self._scan_servers(Q, nd, etype)
+                # nobody is served without a server of the roster: customers whose service is running (by their own attributes) hold
+                # distinct servers that are present at the node
+                claimed = [i for i in cs if i.service_start_date is not False]
+                held = set(id(i.server) for i in claimed if any(i.server is s_ for s_ in nd.servers))
+                if len(held) < len(claimed):
+                    rep("service-only-on-a-server-of-the-roster", {"node": nid, "in_service": [i.id_number for i in claimed],
+                                                                   "servers_present": len(nd.servers), "now": O._num(t)})
                 if etype == "shift_change" and active == nid:
                     k, onb = tt.locate(t)
                     if not onb:
